@@ -1,0 +1,12 @@
+//go:build verif
+
+package syncutils
+
+// VerifYield is called at the named scheduling points when it is set (verification harness only).
+var VerifYield func(point string)
+
+func verifYield(point string) {
+	if f := VerifYield; f != nil {
+		f(point)
+	}
+}
